@@ -219,6 +219,29 @@ class SymFactory:
     def setattr(self, obj, name, value):
         self.interp.setattr(obj, name, value)
 
+    def attempt(self, fn):
+        """run fn(); returns an Outcome (the exception of the program, if any, is captured)"""
+        try:
+            return Outcome(fn())
+        except PyExc as e:
+            return Outcome(exc=e)
+
+    def ok(self, fn):
+        """run fn() as part of building the inputs: an exception means the inputs are inadmissible"""
+        try:
+            return fn()
+        except PyExc:
+            raise PathEnd()
+
+    def set(self, items=()):
+        return self.interp.make_set(list(items))
+
+    def keys(self, container):
+        """the members of a set / keys of a dict as values (symbolic members unwrapped)"""
+        from .interp import unkey
+
+        return [unkey(k) for k in container]
+
     def add(self, a, b):
         import ast as _ast
 
@@ -341,6 +364,25 @@ class NativeFactory:
 
     def setattr(self, obj, name, value):
         setattr(obj, name, value)
+
+    def attempt(self, fn):
+        try:
+            return Outcome(fn())
+        except Exception as e:
+            return Outcome(exc=e)
+
+    def ok(self, fn):
+        try:
+            return fn()
+        except Exception:
+            self.infeasible = True
+            return None
+
+    def set(self, items=()):
+        return set(items)
+
+    def keys(self, container):
+        return list(container)
 
     def add(self, a, b):
         return a + b
